@@ -18,11 +18,97 @@ type StubObject interface {
 	HasMethod(name string) bool
 }
 
-func (ex *Exec) noteRead(p *Value)  {}
-func (ex *Exec) noteWrite(p *Value) {
-	if ex.writeLog != nil {
-		ex.writeLog[p] = true
+// ---- footprints (C19): which memory cells an operation reads and writes ----
+
+type footprint struct {
+	reads, writes map[interface{}]string // cell (or *Map) -> where it was first accessed
+}
+
+func newFootprint() *footprint {
+	return &footprint{reads: map[interface{}]string{}, writes: map[interface{}]string{}}
+}
+
+// leaves enumerates the scalar cells under a cell (aggregates are stored in place).
+func leaves(p *Value, f func(*Value)) {
+	switch v := (*p).(type) {
+	case Struct:
+		for i := range v {
+			leaves(&v[i], f)
+		}
+	case Array:
+		for i := range v {
+			leaves(&v[i], f)
+		}
+	default:
+		f(p)
 	}
+}
+
+func (ex *Exec) noteRead(p *Value) {
+	if ex.fp == nil || p == nil {
+		return
+	}
+	leaves(p, func(l *Value) {
+		if _, ok := ex.fp.reads[l]; !ok {
+			ex.fp.reads[l] = ex.where
+		}
+	})
+}
+
+func (ex *Exec) noteWrite(p *Value) {
+	if ex.fp == nil || p == nil {
+		return
+	}
+	leaves(p, func(l *Value) {
+		if _, ok := ex.fp.writes[l]; !ok {
+			ex.fp.writes[l] = ex.where
+		}
+	})
+}
+
+func (ex *Exec) noteMap(m *Map, write bool) {
+	if ex.fp == nil || m == nil {
+		return
+	}
+	if write {
+		if _, ok := ex.fp.writes[m]; !ok {
+			ex.fp.writes[m] = ex.where
+		}
+	} else if _, ok := ex.fp.reads[m]; !ok {
+		ex.fp.reads[m] = ex.where
+	}
+}
+
+func (ex *Exec) noteSlice(s Slice, write bool) {
+	if ex.fp == nil {
+		return
+	}
+	for i := range s.data {
+		if write {
+			ex.noteWrite(&s.data[i])
+		} else {
+			ex.noteRead(&s.data[i])
+		}
+	}
+}
+
+// conflicts returns a description of the first cell written by one footprint and
+// accessed by the other, or "".
+func conflicts(a, b *footprint) string {
+	for c, wa := range a.writes {
+		if wb, ok := b.writes[c]; ok {
+			return "written at " + wa + " and at " + wb
+		}
+		if rb, ok := b.reads[c]; ok {
+			return "written at " + wa + " and read at " + rb
+		}
+	}
+	for c, wb := range b.writes {
+		if ra, ok := a.reads[c]; ok {
+			return "read at " + ra + " and written at " + wb
+		}
+	}
+	return ""
 }
 
 func term(v Value) *Term { return v.(*Term) }
@@ -53,6 +139,7 @@ func (ex *Exec) byteSlice(ts []*Term) Slice {
 
 func (ex *Exec) sliceTerms(v Value) []*Term {
 	s := v.(Slice)
+	ex.noteSlice(s, false)
 	out := make([]*Term, len(s.data))
 	for i, e := range s.data {
 		out[i] = e.(*Term)
@@ -196,6 +283,19 @@ func (ex *Exec) harnessAPI(fr *frame, name string, args []Value) (Value, bool) {
 		iv := ex.sliceTerms(args[2])
 		data := ex.sliceTerms(args[3])
 		return ex.byteSlice(ex.cbcTerm(enc, key, iv, data)), true
+	case "vUseRealRand":
+		return nil, true
+	case "vConflicts":
+		// run the two operations one after the other, recording their footprints
+		fa, fb := newFootprint(), newFootprint()
+		ex.fp = fa
+		ex.callValue(fr, args[0], nil, 0)
+		ex.fp = fb
+		ex.callValue(fr, args[1], nil, 0)
+		ex.fp = nil
+		d := conflicts(fa, fb)
+		ex.lastConflict = d
+		return tt.Bool(d != ""), true
 	case "vSameFloat":
 		a, b := args[0].(*Term), args[1].(*Term)
 		if a == b {
@@ -489,6 +589,7 @@ func (c *CBCObj) Invoke(ex *Exec, fr *frame, method string, args []Value) Value 
 			c.iv = append([]*Term{}, src[len(src)-16:]...)
 		}
 		for i, t := range out {
+			ex.noteWrite(&dst.data[i])
 			dst.data[i] = t
 		}
 		return nil
@@ -578,6 +679,7 @@ func init() {
 			for i := range ts {
 				ex.nSym++
 				ts[i] = ex.tt.Var(fmt.Sprintf("rnd%d_%d", ex.randCalls, ex.nSym), bv(8))
+				ex.noteWrite(&s.data[i])
 				s.data[i] = ts[i]
 			}
 			ex.draws = append(ex.draws, Draw{Kind: "rand", N: len(ts), terms: ts})
